@@ -46,6 +46,7 @@ CONSUMERS = {
 ENQ_WHEN = {"now": None, "soon": 2.5, "later": 30.5, "past": -1.0}
 WINDOW = 1.0
 CANCEL_ITERS = 40
+DEVIATE_OPS = ("ack", "nack", "reject", "requeue", "consume", "finish", "enq")
 OP_BUDGET = 0.9
 
 
@@ -172,9 +173,9 @@ def _params_for(w, when, tried=0):
 
 
 class Runner:
-    def __init__(self, kind, nmsgs, consumers):
+    def __init__(self, kind, nmsgs, consumers, deviations=None):
         self.kind = kind
-        self.x = Exec(kind)
+        self.x = Exec(kind, deviations=deviations)
         self.w = self.x.world
         self.model = Model(nmsgs, consumers, kind)
         self.cons = {}
@@ -285,7 +286,7 @@ class Runner:
 
     def _server_pending(self):
         s = self.w.server
-        return bool(s is not None and s.pending)
+        return bool(s is not None and s.busy())
 
     # -- observation ---------------------------------------------------------------------------
     def holders(self):
@@ -468,16 +469,24 @@ def _classify(msg: str) -> str:
     return "mismatch"
 
 
-def run_history(kind, nmsgs, consumers, hist, cancel_at=None):
+def run_history(kind, nmsgs, consumers, hist, cancel_at=None, deviations=None, choices_on_last=False, epilogue=False):
     """Replay `hist` (all but the last op assumed clean), check the last op.
-    Returns dict(viol, key, enabled, iters)."""
-    r = Runner(kind, nmsgs, consumers)
+    Returns dict(viol, key, enabled, iters).  With `choices_on_last` the server's timing becomes a
+    choice from the start of the last operation (stalled Redis requests, late RabbitMQ completions);
+    `deviations` replays such choices."""
+    r = Runner(kind, nmsgs, consumers, deviations)
     try:
         r.setup()
         last = len(hist) - 1
         iters = 0
         status = None
+        n0 = 0
         for i, op in enumerate(hist):
+            if i == last and choices_on_last and r.w.server is not None:
+                n0 = len(r.x.chooser.points)
+                for flag in ("stall_choice", "late_choice"):
+                    if hasattr(r.w.server, flag):
+                        setattr(r.w.server, flag, True)
             snap = {}
             if op[0] == "consume":
                 now = r.model.t * WINDOW
@@ -522,8 +531,46 @@ def run_history(kind, nmsgs, consumers, hist, cancel_at=None):
             if i < last and r.viol:
                 # an earlier prefix misbehaves: this history should not have been extended
                 return dict(viol=[], key=None, enabled=[], iters=iters, cut=True, status=status)
+        if epilogue and not r.viol:
+            # drain: whatever the clients still hold or can get is consumed, acked and the consumers
+            # are finished - hidden client-side state (delivery tags, local queues, marks) that went
+            # wrong during the deviated operation shows up as a message that cannot be settled
+            if r.w.server is not None:
+                for flag in ("stall_choice", "late_choice"):
+                    if hasattr(r.w.server, flag):
+                        setattr(r.w.server, flag, False)
+            for mid, x_ in list(r.model.m.items()):
+                if x_["place"] == "held" and not r.viol:
+                    op2 = ["ack", mid]
+                    st2, res2, _ = r.step(op2)
+                    r.check(op2, st2, res2, {})
+            for c in r.model.consumers:
+                guard = 0
+                while r.model.c[c]["started"] and CONSUMERS[c][0] == "NORMAL" and not r.viol and guard < 4:
+                    guard += 1
+                    op2 = ["consume", c]
+                    st2, res2, _ = r.step(op2)
+                    r.check(op2, st2, res2, {})
+                    if st2 != "ok" or r.viol:
+                        break
+                    mid2 = res2[0].id_
+                    op3 = ["ack", mid2]
+                    st3, res3, _ = r.step(op3)
+                    r.check(op3, st3, res3, {})
+            for c in r.model.consumers:
+                if r.model.c[c]["started"] and not r.viol:
+                    op2 = ["finish", c]
+                    st2, res2, _ = r.step(op2)
+                    r.check(op2, st2, res2, {})
+            if not r.viol:
+                obs = r.w.observe()
+                for mid in r.model.m:
+                    if any(e["place"] == "held" for e in obs.get(mid, [])):
+                        r.viol.append(("epilogue: left-in-flight", f"after draining and finishing every consumer {mid} is still marked in flight"))
+            r.viol = [(sig if sig.startswith("epilogue") else "epilogue " + sig, what) for sig, what in r.viol]
         key = digest([r.model.key(), r.obs_key()])
-        return dict(viol=r.viol, key=key, enabled=r.model.enabled(), iters=iters, status=status)
+        pts = [[j, lab, n] for j, (lab, n) in enumerate(r.x.chooser.points) if j >= n0] if choices_on_last else []
+        return dict(viol=r.viol, key=key, enabled=r.model.enabled(), iters=iters, status=status, points_last=pts)
     finally:
         r.close()
 
@@ -553,10 +600,35 @@ def drive(tier, seed):
 
 def _expand(job):
     """Worker function for one transition."""
-    r = run_history(job["kind"], job["nmsgs"], job["consumers"], job["hist"], job.get("cancel_at"))
+    if job.get("deviate"):
+        return _deviate(job)
+    r = run_history(job["kind"], job["nmsgs"], job["consumers"], job["hist"], job.get("cancel_at"),
+                    deviations=job.get("dev"), choices_on_last=bool(job.get("dev")), epilogue=bool(job.get("dev")))
     r["hist"] = job["hist"]
     r["cancel_at"] = job.get("cancel_at")
     return r
+
+
+def _deviate(job):
+    """All single server-timing deviations during the last operation of a history."""
+    base = run_history(job["kind"], job["nmsgs"], job["consumers"], job["hist"], choices_on_last=True)
+    out = dict(viol=[], key=None, enabled=[], iters=0, hist=job["hist"], cancel_at=None, runs=1, devs=[])
+    if base["viol"]:
+        return out
+    for j, lab, n in base.get("points_last", []):
+        if n < 2 or not (lab.startswith("stall:") or lab.startswith("late:")):
+            continue
+        # the consumer's idle polling is not worth a deviation each
+        if lab.startswith("stall:") and not any(t in lab for t in ("MULTI", "HMGET", "HGET")):
+            continue
+        dev = [[j, 1, lab]]
+        r = run_history(job["kind"], job["nmsgs"], job["consumers"], job["hist"], deviations=dev, choices_on_last=True,
+                        epilogue=True)
+        out["runs"] += 1
+        for sig, what in r["viol"]:
+            out["viol"].append((sig + " +server-deviation", what + f" [deviation {dev}]"))
+            out["devs"].append(dev)
+    return out
 
 
 def run_job(job):
@@ -564,8 +636,9 @@ def run_job(job):
         r = _expand(job)
         acc = Acc()
         acc.executions = 1
+        sfx = " +server-deviation" if job.get("dev") else ""
         for sig, what in r["viol"]:
-            acc.violations.append(dict(signature=f"{job['kind']} {sig}", what=what + f" [history {job['hist']}]", job=job))
+            acc.violations.append(dict(signature=f"{job['kind']} {sig}{sfx}", what=what + f" [history {job['hist']}]", job=job))
         return acc.to_dict()
     raise AssertionError("C01 jobs are single executions")
 
@@ -636,6 +709,25 @@ def search(kind, tier):
                 what=what + f" [history {r['hist']}]",
                 job=dict(kind=kind, nmsgs=nm, consumers=cons, hist=r["hist"], cancel_at=r["cancel_at"]),
             ))
+    # server-timing deviations on the same distinct (state, op) pairs (Redis / RabbitMQ models)
+    ndev = 0
+    if kind != "mem":
+        dtodo = [dict(kind=kind, nmsgs=nm, consumers=cons, hist=json.loads(a) + [json.loads(b)], deviate=True)
+                 for a, b in sorted(seen_pairs) if json.loads(b)[0] in DEVIATE_OPS]
+        for r in (pmap(__name__, "_expand", dtodo) if dtodo else []):
+            acc.executions += r.get("runs", 1)
+            ndev += r.get("runs", 1)
+            seen_sig = set()
+            for (sig, what), dev in zip(r["viol"], r.get("devs", [])):
+                if sig in seen_sig:
+                    continue
+                seen_sig.add(sig)
+                acc.violations.append(dict(
+                    signature=f"{kind} {sig}",
+                    what=what + f" [history {r['hist']}]",
+                    job=dict(kind=kind, nmsgs=nm, consumers=cons, hist=r["hist"], dev=dev),
+                ))
+    acc.extra[f"{kind}_deviated_runs"] = ndev
     acc.outcomes = {f"{kind}:{k}" for k in seen}
     acc.choice_points = transitions
     acc.extra[f"{kind}_states"] = len(seen)
